@@ -49,6 +49,9 @@ type hooks struct {
 	onTraffic  func(cs *connState, c gnet.Conn) gnet.Action
 	onClose    func(cs *connState, c gnet.Conn, err error) gnet.Action
 	onTick     func() (time.Duration, gnet.Action)
+	// afterPublish runs at the end of OnOpen, once the record can be found by snapshot(): a scenario that arms "all
+	// connections" at some moment uses it to arm a connection whose OnOpen was still in progress at that moment
+	afterPublish func(cs *connState)
 	// udp: OnTraffic of connections that never had OnOpen (per-datagram transient conns)
 	onDatagram func(c gnet.Conn) gnet.Action
 }
@@ -307,6 +310,9 @@ func (m *monitor) OnOpen(c gnet.Conn) (out []byte, action gnet.Action) {
 	m.conns[cs.tok] = cs
 	m.byKey[cs.key] = cs
 	m.mu.Unlock()
+	if m.h.afterPublish != nil {
+		m.h.afterPublish(cs)
+	}
 	m.opened.Add(1)
 	return out, action
 }
